@@ -186,7 +186,7 @@ func (s *byPodSolver) handleScenarioSolution(
 	actualVictimJobs := getVictimJobsFromVictimTasks(victimsTasks, scenario)
 
 	if s.solutionValidator != nil {
-		validSolution := s.solutionValidator(scenario)
+		validSolution := s.solutionValidator(newSolutionScenario(scenario, solutionVictims))
 		if !validSolution {
 			statement.Discard()
 			return &solutionResult{false, nil, nil, nil}
@@ -199,6 +199,46 @@ func (s *byPodSolver) handleScenarioSolution(
 	}
 
 	return &solutionResult{true, victimsTasks, actualVictimJobs, statement}
+}
+
+// solutionScenario presents a solved scenario to the validators with the victims the solution acts on (evicted, or
+// re-pipelined when victims may be consolidated) instead of every victim the scenario proposed: potential victims on
+// nodes the solution did not need are left running and must not count as reclaimed or preempted.
+type solutionScenario struct {
+	preemptor *podgroup_info.PodGroupInfo
+	victims   map[common_info.PodGroupID]*api.VictimInfo
+}
+
+func newSolutionScenario(scenario *scenario.ByNodeScenario, solutionVictims *simulationVictims) *solutionScenario {
+	inSolution := map[common_info.PodID]bool{}
+	for _, task := range solutionVictims.preemptedVictims {
+		inSolution[task.UID] = true
+	}
+	for _, task := range solutionVictims.pipelinedVictims {
+		inSolution[task.UID] = true
+	}
+
+	victims := map[common_info.PodGroupID]*api.VictimInfo{}
+	for jobID, victim := range scenario.GetVictims() {
+		var tasks []*pod_info.PodInfo
+		for _, task := range victim.Tasks {
+			if inSolution[task.UID] {
+				tasks = append(tasks, task)
+			}
+		}
+		if len(tasks) > 0 {
+			victims[jobID] = &api.VictimInfo{Job: victim.Job, Tasks: tasks}
+		}
+	}
+	return &solutionScenario{preemptor: scenario.GetPreemptor(), victims: victims}
+}
+
+func (s *solutionScenario) GetPreemptor() *podgroup_info.PodGroupInfo {
+	return s.preemptor
+}
+
+func (s *solutionScenario) GetVictims() map[common_info.PodGroupID]*api.VictimInfo {
+	return s.victims
 }
 
 func getNodesOfJob(pj *podgroup_info.PodGroupInfo) []string {
